@@ -854,115 +854,12 @@ def face_ibug_68_to_face_ibug_49_trimesh(pcloud):
     # Apply face_ibug_68_to_face_ibug_49
     new_pcloud = face_ibug_68_to_face_ibug_49(pcloud)
 
-    # This is in terms of the 49 points
-    tri_list = np.array(
-        [
-            [47, 29, 28],
-            [44, 43, 23],
-            [38, 20, 21],
-            [47, 28, 42],
-            [40, 41, 37],
-            [51, 62, 61],
-            [37, 19, 20],
-            [28, 40, 39],
-            [38, 21, 39],
-            [36, 1, 0],
-            [48, 59, 4],
-            [49, 60, 48],
-            [13, 53, 14],
-            [60, 51, 61],
-            [51, 51, 62],
-            [52, 51, 33],
-            [49, 50, 60],
-            [57, 7, 8],
-            [64, 56, 57],
-            [35, 30, 29],
-            [52, 62, 53],
-            [53, 52, 35],
-            [37, 36, 17],
-            [18, 37, 17],
-            [37, 38, 40],
-            [38, 37, 20],
-            [19, 37, 18],
-            [38, 39, 40],
-            [28, 29, 40],
-            [41, 36, 37],
-            [27, 39, 21],
-            [41, 31, 1],
-            [30, 32, 31],
-            [33, 51, 50],
-            [33, 30, 34],
-            [31, 40, 29],
-            [36, 0, 17],
-            [31, 2, 1],
-            [31, 41, 40],
-            [1, 36, 41],
-            [31, 49, 2],
-            [2, 49, 3],
-            [3, 49, 48],
-            [31, 32, 50],
-            [62, 53, 54],
-            [48, 4, 3],
-            [59, 5, 4],
-            [58, 65, 64],
-            [5, 59, 58],
-            [58, 59, 65],
-            [7, 6, 58],
-            [64, 57, 58],
-            [13, 54, 53],
-            [7, 58, 57],
-            [6, 5, 58],
-            [63, 55, 54],
-            [65, 59, 48],
-            [31, 50, 49],
-            [32, 33, 50],
-            [30, 33, 32],
-            [34, 52, 33],
-            [35, 52, 34],
-            [48, 60, 65],
-            [64, 63, 56],
-            [60, 65, 61],
-            [65, 64, 61],
-            [57, 56, 9],
-            [8, 57, 9],
-            [64, 63, 61],
-            [9, 56, 10],
-            [10, 56, 11],
-            [11, 56, 55],
-            [11, 55, 12],
-            [56, 63, 55],
-            [51, 52, 62],
-            [55, 54, 12],
-            [63, 54, 62],
-            [61, 62, 63],
-            [12, 54, 13],
-            [45, 46, 44],
-            [35, 34, 30],
-            [14, 53, 35],
-            [15, 46, 45],
-            [27, 28, 39],
-            [27, 42, 28],
-            [35, 29, 47],
-            [30, 31, 29],
-            [15, 35, 46],
-            [15, 14, 35],
-            [43, 22, 23],
-            [27, 21, 22],
-            [24, 44, 23],
-            [44, 47, 43],
-            [43, 47, 42],
-            [46, 35, 47],
-            [26, 45, 44],
-            [46, 47, 44],
-            [25, 44, 24],
-            [25, 26, 44],
-            [16, 15, 45],
-            [16, 45, 26],
-            [22, 42, 43],
-            [50, 60, 51],
-            [27, 22, 42],
-        ]
-    )
+    # The triangulation of the 66-point markup restricted to the 49 points that
+    # remain once the jaw line (its first 17 points) is removed. The literal
+    # list that used to stand here was that of the 66 points: it indexed points
+    # a 49-point mesh does not have.
+    tri_list_66 = face_ibug_68_to_face_ibug_66_trimesh(pcloud).trilist
+    tri_list = tri_list_66[np.all(tri_list_66 >= 17, axis=1)] - 17
 
     new_pcloud = TriMesh(new_pcloud.points, trilist=tri_list, copy=False)
 
